@@ -596,15 +596,19 @@ func (d *DBFT[H]) onPreCommit(msg ConsensusPayload[H]) {
 		}
 
 		d.Logger.Info("received PreCommit", zap.Uint("validator", uint(msg.ValidatorIndex())))
-		d.extendTimer(4)
 
 		if !d.hasAllTransactions() {
+			// Can't be verified yet, it's stored and checked later.
+			d.extendTimer(4)
 			return
 		}
 		preBlock := d.CreatePreBlock()
-		if preBlock != nil {
+		if preBlock == nil {
+			d.extendTimer(4)
+		} else {
 			pub := d.Validators[msg.ValidatorIndex()]
 			if err := preBlock.Verify(pub, msg.GetPreCommit().Data()); err == nil {
+				d.extendTimer(4)
 				d.checkPreCommit()
 			} else {
 				d.PreCommitPayloads[msg.ValidatorIndex()] = nil
@@ -646,11 +650,14 @@ func (d *DBFT[H]) onCommit(msg ConsensusPayload[H]) {
 		}
 
 		d.Logger.Info("received Commit", zap.Uint("validator", uint(msg.ValidatorIndex())))
-		d.extendTimer(4)
 		header := d.MakeHeader()
-		if header != nil {
+		if header == nil {
+			// Can't be verified yet, it's stored and checked later.
+			d.extendTimer(4)
+		} else {
 			pub := d.Validators[msg.ValidatorIndex()]
 			if err := header.Verify(pub, msg.GetCommit().Signature()); err == nil {
+				d.extendTimer(4)
 				d.checkCommit()
 			} else {
 				d.CommitPayloads[msg.ValidatorIndex()] = nil
